@@ -220,7 +220,7 @@ fn simple_filter(p: &Params) -> (Filter, Want) {
     (Filter::tag(tag, "x y"), Want::Tok(format!("({name} == \"x y\")")))
 }
 
-pub const ROWS: usize = 96;
+pub const ROWS: usize = 100;
 
 /// Row `row` with parameters `p`: the command the crate builds and what the protocol reference
 /// says the request must be. `None`: the row's documented precondition does not hold for `p`.
@@ -419,7 +419,7 @@ pub fn eval(row: usize, p: &Params) -> Option<(&'static str, Command, Vec<Want>)
             0 => ("TagTypes::enable_all", c::TagTypes::enable_all().command(), vec![t("tagtypes"), t("all")]),
             1 => ("TagTypes::disable_all", c::TagTypes::disable_all().command(), vec![t("tagtypes"), t("clear")]),
             k => {
-                if p.tags.is_empty() || p.tags.len() > 12 {
+                if p.tags.is_empty() || p.tags.len() > 40 {
                     return None; // documented: panics on an empty list
                 }
                 let (tags, mut wants): (Vec<Tag>, Vec<Want>) = p.tags.iter().map(|i| tag_at(*i)).unzip();
@@ -487,6 +487,140 @@ pub fn eval(row: usize, p: &Params) -> Option<(&'static str, Command, Vec<Want>)
             let (f, fw) = simple_filter(p);
             ("List::filter, group_by, filter", c::List::new(tag).filter(other).group_by([g1]).filter(f).command(), vec![t("list"), tw, fw, t("group"), g1w])
         }
+        // builder objects that are rendered (and cloned, formatted, compared) between two construction
+        // steps: a command object is a value - what it was used for before must not show in what a
+        // later `command()` of it, or of a clone of it, sends
+        96 => {
+            let (f, fw) = simple_filter(p);
+            let (tag, tw) = tag_at(p.tags.get(1).copied().unwrap_or(7));
+            let use_it = |x: &c::Find| {
+                let _ = (x.command(), format!("{x:?}"), x.clone() == *x);
+            };
+            match p.flag % 6 {
+                0 => {
+                    let base = c::Find::new(f);
+                    use_it(&base);
+                    ("Find rendered, clone.window", base.clone().window(usize_bounds(p)).command(), vec![t("find"), fw, t("window"), want_range(p)])
+                }
+                1 => {
+                    let base = c::Find::new(f).sort(tag);
+                    use_it(&base);
+                    ("Find::sort rendered, window", base.window(usize_bounds(p)).command(), vec![t("find"), fw, t("sort"), tw, t("window"), want_range(p)])
+                }
+                2 => {
+                    let base = c::Find::new(f).window(1..2);
+                    use_it(&base);
+                    ("Find::window rendered, clone.window", base.clone().window(usize_bounds(p)).command(), vec![t("find"), fw, t("window"), want_range(p)])
+                }
+                3 => {
+                    let base = c::Find::new(f).window(usize_bounds(p));
+                    use_it(&base);
+                    ("Find::window rendered, sort", base.sort(tag).command(), vec![t("find"), fw, t("sort"), tw, t("window"), want_range(p)])
+                }
+                4 => {
+                    let base = c::Find::new(f);
+                    use_it(&base);
+                    let c2 = base.clone().sort(tag);
+                    use_it(&c2);
+                    ("Find rendered, clone.sort rendered, window", c2.window(usize_bounds(p)).command(), vec![t("find"), fw, t("sort"), tw, t("window"), want_range(p)])
+                }
+                _ => {
+                    let base = c::Find::new(f);
+                    use_it(&base);
+                    ("Find rendered, window", base.window(usize_bounds(p)).command(), vec![t("find"), fw, t("window"), want_range(p)])
+                }
+            }
+        }
+        97 => {
+            let (f, fw) = simple_filter(p);
+            let (tag, tw) = tag_at(p.tags.get(2).copied().unwrap_or(3));
+            let (g, gw) = tag_at(p.tags.get(1).copied().unwrap_or(7));
+            match p.flag % 4 {
+                0 => {
+                    let base = c::List::new(tag);
+                    let _ = (base.command(), format!("{base:?}"));
+                    let with = base.clone().filter(f);
+                    let _ = with.command();
+                    ("List rendered, filter rendered, group_by", with.group_by([g]).command(), vec![t("list"), tw, fw, t("group"), gw])
+                }
+                1 => {
+                    let base = c::List::new(tag).group_by([g]);
+                    let _ = base.command();
+                    ("List::group_by rendered, filter", base.filter(f).command(), vec![t("list"), tw, fw, t("group"), gw])
+                }
+                2 => {
+                    let base = c::Count::new(f);
+                    let _ = (base.command(), base.clone());
+                    ("Count rendered, group_by", base.group_by(g).command(), vec![t("count"), fw, t("group"), gw])
+                }
+                _ => {
+                    let base = c::CountGrouped::new(g);
+                    let _ = (base.command(), format!("{base:?}"));
+                    ("CountGrouped rendered, filter", base.clone().filter(f).command(), vec![t("count"), fw, t("group"), gw])
+                }
+            }
+        }
+        98 => match p.flag % 5 {
+            0 => {
+                let base = c::Add::uri(s1);
+                let _ = (base.command(), base.clone());
+                ("Add rendered, at", base.at(p.a as usize).command(), vec![t("addid"), t(s1), n(p.a)])
+            }
+            1 => {
+                let base = c::Add::uri(s1).at(7usize);
+                let _ = base.command();
+                ("Add::at rendered, after_current", base.clone().after_current(p.a as usize).command(), vec![t("addid"), t(s1), Want::Rel('+', p.a)])
+            }
+            2 => {
+                let base = c::AlbumArt::new(s1);
+                let _ = base.command();
+                ("AlbumArt rendered, offset", base.clone().offset(p.a as usize).command(), vec![t("albumart"), t(s1), n(p.a)])
+            }
+            3 => {
+                let base = c::StickerFind::new(s1, s2);
+                let _ = (base.command(), format!("{base:?}"));
+                ("StickerFind rendered, where_gt", base.where_gt(s3).command(), vec![t("sticker"), t("find"), t("song"), t(s1), t(s2), t(">"), t(s3)])
+            }
+            _ => {
+                let base = c::Update::new();
+                let _ = base.command();
+                ("Update rendered, uri", base.clone().uri(s1).command(), vec![t("update"), t(s1)])
+            }
+        },
+        // tag lists that happen to name every tag the crate knows (or all but one, or one twice): still
+        // `tagtypes enable|disable` followed by exactly these names
+        99 => {
+            let table = tag_table();
+            let rot = p.a as usize % table.len();
+            let mut tags: Vec<Tag> = Vec::new();
+            let mut wants: Vec<Want> = Vec::new();
+            for k in 0..table.len() {
+                let (tag, name) = table[(k + rot) % table.len()].clone();
+                // now and then the catch-all carrying the canonical name instead of the named variant
+                tags.push(if p.flag & 2 != 0 && k == (p.b as usize % table.len()) { Tag::Other(name.into()) } else { tag });
+                wants.push(t(name));
+            }
+            match (u64::from(p.flag >> 2).wrapping_add(p.c)) % 4 {
+                0 => {}
+                1 => {
+                    tags.pop();
+                    wants.pop();
+                }
+                2 => {
+                    tags.push(tags[0].clone());
+                    wants.push(wants[0].clone());
+                }
+                _ => {
+                    tags.reverse();
+                    wants.reverse();
+                }
+            }
+            let disable = p.flag & 1 == 1;
+            let mut w = vec![t("tagtypes"), t(if disable { "disable" } else { "enable" })];
+            w.append(&mut wants);
+            let cmd = if disable { c::TagTypes::disable(&tags).command() } else { c::TagTypes::enable(&tags).command() };
+            ("TagTypes with every known tag", cmd, w)
+        }
         _ => return None,
     })
 }
@@ -531,7 +665,11 @@ pub fn check(case: &Case) -> CaseResult {
     }
     let bytes = sent_bytes(cmd);
     let line = &bytes[..bytes.len() - 1];
-    let toks = match mpdtok::tokenize(line) {
+    // a reference request of more than 15 arguments (a long tag list) is beyond MPD's compile-time
+    // argument limit whatever the crate does: only the grammar is applied to it
+    let tokenized = if wants.len() > mpdtok::COMMAND_ARGV_MAX { mpdtok::tokenize_any_count(line) } else { mpdtok::tokenize(line) };
+    r.class_if(wants.len() > mpdtok::COMMAND_ARGV_MAX, "more_arguments_than_mpd_takes");
+    let toks = match tokenized {
         Ok(t) => t,
         Err(e) => {
             r.fail(format!("{name}: MPD's tokenizer rejects {:?}: {e:?}", escape_bytes(line)));
@@ -623,7 +761,8 @@ fn grid(_tier: Tier) -> Box<dyn Iterator<Item = Case>> {
             GRID.into_iter().flat_map(move |b| {
                 bks.into_iter().flat_map(move |lo| {
                     bks.into_iter().flat_map(move |hi| {
-                        (0..4u8).map(move |flag| {
+                        (0..8u8).map(move |flag8| {
+                            let flag = flag8 % 4;
                             let k = (a as usize).wrapping_add(b as usize).wrapping_add(flag as usize) % nanos.len();
                             Case {
                                 row,
@@ -638,7 +777,7 @@ fn grid(_tier: Tier) -> Box<dyn Iterator<Item = Case>> {
                                     hi,
                                     secs: [0, 2, u64::MAX, 1 << 53][flag as usize],
                                     nanos: nanos[k],
-                                    flag,
+                                    flag: flag8,
                                     tags: vec![row.wrapping_mul(977), 3, 20000],
                                 },
                             }
